@@ -28,11 +28,32 @@ CLASSES = [m_net.Network, m_state.State, m_hv.HostVector, m_obs.Observation, m_e
            m_act.Action, m_act.ActionResult, m_act.FlatActionSpace, m_act.ParameterisedActionSpace]
 
 
+class _Term:
+    """a z3 term compared structurally (terms are hash-consed; the reference keeps the AST alive,
+    so its identity cannot be reused while a snapshot exists)"""
+    __slots__ = ('t',)
+
+    def __init__(self, t):
+        self.t = t
+
+    def __eq__(self, other):
+        return isinstance(other, _Term) and self.t.eq(other.t)
+
+    def __ne__(self, other):
+        return not self.__eq__(other)
+
+    def __hash__(self):
+        return self.t.hash()
+
+    def __repr__(self):
+        return 'term'
+
+
 def canon(x, depth=0, seen=None):
     if seen is None:
         seen = set()
     if isinstance(x, sx.SymBool) or isinstance(x, sx.SymNum):
-        return ('sym', x.z.get_id())
+        return _Term(x.z)
     if x is None or isinstance(x, (bool, int, float, str, bytes, complex)):
         return x
     if isinstance(x, (_np.generic,)):
